@@ -67,6 +67,7 @@ def check(run, project):
     w11(run, roles)
     from .shared import discarded_generators
     discarded_generators(run, project, "W12")
+    w14(run, roles)
     # W13: every member of a named range (handle ranges: the last PCR, the last NV index ...) is a valid value - a well-formed
     # encoding that carries it must decode in strict mode: the membership / member-construction semantics of NamedRange (C04-V4)
     from . import namedrange
@@ -939,6 +940,33 @@ def w11(run, roles):
                "size-prefixed structure is decoded as the wrong kind (or not at all)", module=mod, node=p.node or fn, func=fn.name,
                construct="process_tpm2b payload kind")
     run.require(n >= 3, f"W11: only {n} completing paths of process_tpm2b")
+
+
+def w14(run, roles):
+    """every walker hands (size, decoded value) back to its caller on every completing path - the callers unpack exactly that
+    (a path that falls off the end hands back None: the unpacking fails with TypeError and the decoded value is lost)"""
+    mod = roles.mod
+    n = 0
+    def endless(fn):   # the stream walker: an unconditional loop without break never completes
+        last = fn.body[-1]
+        return isinstance(last, ast.While) and isinstance(last.test, ast.Constant) and bool(last.test.value) \
+            and not any(isinstance(x, (ast.Break, ast.Return)) for x in ast.walk(last))
+    for name, fn in list(roles.walkers.items()) + [(roles.dispatcher.name, roles.dispatcher)]:
+        if endless(fn):
+            continue
+        for p in paths.summarise(mod, fn):
+            if p.end == "raise":
+                continue
+            v = p.value
+            ok = p.end == "return" and v is not None and (
+                (isinstance(v, ast.Tuple) and len(v.elts) == 2) or (isinstance(v, ast.Name) and v.id.startswith("_yf")))
+            n += 1
+            lab = " & ".join(("" if t else "not ") + a[:50] for a, t, _ in p.cond[:4]) or "always"
+            run.ob("W14", ok, f"{name} [{lab}]: returns (size, value)",
+                   f"on the path [{lab}] {name} ends with `{p.end} {p.value_text() if v is not None else ''}`: the walker does not hand "
+                   "(size, value) back (its caller unpacks two values)", module=mod, node=p.node or fn, func=name,
+                   construct=f"{name} result")
+    run.require(n >= 20, f"W14: only {n} completing walker paths")
 
 
 def w9(run, roles):
